@@ -10,23 +10,23 @@ Open Scope N_scope.
 Ltac step := cbn [sq exec exec0 run run1 call1 g_err g_st g_vars g_pos g_lim g_buf g_data g_dlen g_ws g_now
                   set_st set_vars set_pos set_lim set_buf set_data set_dlen set_ws set_err setl phys
                   look getv setv slot
-                  v_x v_z v_need v_n v_now v_sec v_num v_length v_size v_i v_o v_s v_v v_offset v_timestamp v_oldN v_oldNow
+                  v_x v_z v_need v_n v_now v_sec v_num v_length v_size v_i v_o v_s v_v v_offset v_timestamp v_oldN v_oldNow v_off
                   offs tss used hwm img st_offs st_tss st_used st_hwm st_img vars0].
 
 Ltac lstep := lazy beta iota zeta delta
                  [sq exec exec0 run run1 call1 g_err g_st g_vars g_pos g_lim g_buf g_data g_dlen g_ws g_now
                   set_st set_vars set_pos set_lim set_buf set_data set_dlen set_ws set_err setl phys
                   look getv setv slot
-                  v_x v_z v_need v_n v_now v_sec v_num v_length v_size v_i v_o v_s v_v v_offset v_timestamp v_oldN v_oldNow
+                  v_x v_z v_need v_n v_now v_sec v_num v_length v_size v_i v_o v_s v_v v_offset v_timestamp v_oldN v_oldNow v_off
                   offs tss used hwm img st_offs st_tss st_used st_hwm st_img vars0].
 
 Lemma Zlt0_ofN (n : N) : (Z.of_N n <? 0)%Z = false. Proof. lia. Qed.
 
 (* states are taken apart into their components first: every step then yields a state in constructor form *)
 Ltac dσ σ :=
-  destruct σ as [[o t u h f] [vx vz vneed vn vnow vsec vnum vlength vsize vi vo vs vv voffset vtimestamp voldN voldNow] pos lim buf dat dlen ws err nw];
+  destruct σ as [[o t u h f] [vx vz vneed vn vnow vsec vnum vlength vsize vi vo vs vv voffset vtimestamp voldN voldNow voff] pos lim buf dat dlen ws err nw];
   cbn [g_err g_vars g_st g_pos g_lim g_buf g_data g_dlen g_ws g_now
-       v_x v_z v_need v_n v_now v_sec v_num v_length v_size v_i v_o v_s v_v v_offset v_timestamp v_oldN v_oldNow offs tss used hwm img].
+       v_x v_z v_need v_n v_now v_sec v_num v_length v_size v_i v_o v_s v_v v_offset v_timestamp v_oldN v_oldNow v_off offs tss used hwm img].
 
 (* ---------- setHead ---------- *)
 Lemma call_setHead σ x z (a b : Z) k :
@@ -73,7 +73,7 @@ Lemma scan_loop ret k σb rb need : g_err σb = false -> v_need rb = Z.of_N need
 Proof.
   intros He Hneed. change (2^31 - 1) with 2147483647.
   destruct σb as [[o t u h f] vs0 pos lim buf dat dlen ws err nw].
-  destruct rb as [vx vz vneed vn vnow vsec vnum vlength vsize vi vo vs vv voffset vtimestamp voldN voldNow].
+  destruct rb as [vx vz vneed vn vnow vsec vnum vlength vsize vi vo vs vv voffset vtimestamp voldN voldNow voff].
   cbn [g_err v_need g_st used] in *. subst err vneed.
   induction fuel as [|fu IH]; intros n i Hb; cbn [for_loop scan_ni]; [reflexivity|].
   unfold fs_hi at 1. lstep. unfold c14_findSpace_bound.
@@ -101,7 +101,7 @@ Proof.
   replace (Z.to_nat (Z.of_N h + Z.of_N need + 2)) with (N.to_nat (h + need + 2)) by lia.
   match goal with |- for_loop ?fu Vi ?hi ?body ?k0 ?s0 = ?RR =>
     change (for_loop fu Vi fs_hi (fs_body (fun (_ : string) (σ' : ist) => k (set_vars σ' (setv
-               (mkvars vx vz vneed vn vnow vsec vnum vlength vsize vi vo vs vv voffset vtimestamp voldN voldNow) Vn (v_n (g_vars σ')))))) k0
+               (mkvars vx vz vneed vn vnow vsec vnum vlength vsize vi vo vs vv voffset vtimestamp voldN voldNow voff) Vn (v_n (g_vars σ')))))) k0
               (set_vars (mkist (Build_st o t u h f) vars0 pos lim buf dat dlen ws false nw)
                         (setv (setv (setv vars0 Vneed (Z.of_N need)) Vn (Z.of_N 0)) Vi (Z.of_N 0))) = RR) end.
   rewrite (scan_loop _ _ (mkist (Build_st o t u h f) vars0 pos lim buf dat dlen ws false nw) (setv vars0 Vneed (Z.of_N need)) need eq_refl eq_refl) by lia.
@@ -116,7 +116,7 @@ Ltac mark_loop_tac :=
   intros He Hhi Hn Hb; change (2^31) with 2147483648 in Hb;
   match goal with σb : ist, rb : vars |- _ =>
     destruct σb as [[o t u0 h f] vs0 pos lim buf dat dlen ws err nw];
-    destruct rb as [vx vz vneed vn vnow vsec vnum vlength vsize vi vo vs vv voffset vtimestamp voldN voldNow] end;
+    destruct rb as [vx vz vneed vn vnow vsec vnum vlength vsize vi vo vs vv voffset vtimestamp voldN voldNow voff] end;
   cbn [g_err g_st used v_now v_need v_n v_s v_o] in *; subst;
   let m := fresh "m" in let IH := fresh "IH" in let j := fresh "j" in let u := fresh "u" in let Hj := fresh "Hj" in
   induction m as [|m IH]; intros j u Hj; cbn [for_loop mark]; lstep;
@@ -205,7 +205,7 @@ Ltac lstep0 := lazy beta iota zeta delta
                  [sq exec g_err g_st g_vars g_pos g_lim g_buf g_data g_dlen g_ws g_now
                   set_st set_vars set_pos set_lim set_buf set_data set_dlen set_ws set_err setl phys
                   look getv setv slot
-                  v_x v_z v_need v_n v_now v_sec v_num v_length v_size v_i v_o v_s v_v v_offset v_timestamp v_oldN v_oldNow
+                  v_x v_z v_need v_n v_now v_sec v_num v_length v_size v_i v_o v_s v_v v_offset v_timestamp v_oldN v_oldNow v_off
                   offs tss used hwm img st_offs st_tss st_used st_hwm st_img vars0].
 Ltac peel :=
   match goal with |- context [sq ?f (?s :: ?rest) ?k ?σ] =>
@@ -220,12 +220,12 @@ Lemma exec_for dc kind i t hi body ret k σ : g_err σ = false ->
             end) i hi (sq (fun s k => exec dc s ret k) body) k (setl σ i 0%Z).
 Proof. intros He. cbn [exec]. rewrite He. reflexivity. Qed.
 
-Lemma alloc_eq k o t u h f vsec vnum vlength vsize vi vo vs vv voffset vtimestamp voldN voldNow pos lim buf dat dlen ws nw
+Lemma alloc_eq k o t u h f vsec vnum vlength vsize vi vo vs vv voffset vtimestamp voldN voldNow voff pos lim buf dat dlen ws nw
       (x z n cur need : N) :
   x < 32 -> z < 32 -> need < 256 -> cur < 256 -> n < 2^24 -> h <= 2^23 -> nw < 2^63 ->
   sq (fun s k => exec call1 s RFin k) ws_alloc k
      (mkist (Build_st o t u h f)
-            (mkvars (Z.of_N x) (Z.of_N z) (Z.of_N need) (Z.of_N n) (Z.of_N cur) vsec vnum vlength vsize vi vo vs vv voffset vtimestamp voldN voldNow)
+            (mkvars (Z.of_N x) (Z.of_N z) (Z.of_N need) (Z.of_N n) (Z.of_N cur) vsec vnum vlength vsize vi vo vs vv voffset vtimestamp voldN voldNow voff)
             pos lim buf dat dlen ws false nw) =
   match find_space (N.to_nat (h + need + 2)) (mark u n (N.to_nat cur) false) need 0 0 with
   | None => RNoFuel
@@ -235,7 +235,7 @@ Lemma alloc_eq k o t u h f vsec vnum vlength vsize vi vo vs vv voffset vtimestam
                          (mark (mark u n (N.to_nat cur) false) n' (N.to_nat need) true) (N.max h (n' + need))
                          (mkwr (4 * idx x z) (be 4 (n' * 256 + need)) :: mkwr (4096 + 4 * idx x z) (be 4 (nw mod 2^32)) :: f))
                (mkvars (Z.of_N x) (Z.of_N z) (Z.of_N need) (Z.of_N n') (Z.of_N need) vsec vnum vlength vsize (Z.of_N need)
-                       vo vs vv voffset (wrap_s 64 (Z.of_N nw)) (Z.of_N n) (Z.of_N cur))
+                       vo vs vv voffset (wrap_s 64 (Z.of_N nw)) (Z.of_N n) (Z.of_N cur) voff)
                None lim (be 4 (n' * 256 + need)) dat dlen
                ((ws ++ [mkwr (4096 + 4 * idx x z) (be 4 (nw mod 2^32))]) ++ [mkwr (4 * idx x z) (be 4 (n' * 256 + need))])
                false nw)
@@ -251,9 +251,9 @@ Proof.
   etransitivity.
   { apply (mark_loop_now call1 RFin K "r.sectors[n+i] = false" false
              (mkist (Build_st o t u h f)
-                (mkvars (Z.of_N x) (Z.of_N z) (Z.of_N need) (Z.of_N n) (Z.of_N cur) vsec vnum vlength vsize vi vo vs vv voffset vtimestamp (Z.of_N n) (Z.of_N cur))
+                (mkvars (Z.of_N x) (Z.of_N z) (Z.of_N need) (Z.of_N n) (Z.of_N cur) vsec vnum vlength vsize vi vo vs vv voffset vtimestamp (Z.of_N n) (Z.of_N cur) voff)
                 pos lim buf dat dlen ws false nw)
-             (mkvars (Z.of_N x) (Z.of_N z) (Z.of_N need) (Z.of_N n) (Z.of_N cur) vsec vnum vlength vsize vi vo vs vv voffset vtimestamp (Z.of_N n) (Z.of_N cur))
+             (mkvars (Z.of_N x) (Z.of_N z) (Z.of_N need) (Z.of_N n) (Z.of_N cur) vsec vnum vlength vsize vi vo vs vv voffset vtimestamp (Z.of_N n) (Z.of_N cur) voff)
              n cur eq_refl eq_refl eq_refl ltac:(change (2^31) with 2147483648; lia) (Z.to_nat (Z.of_N cur)) 0 u ltac:(lia)). }
   rewrite N.add_0_r. replace (Z.to_nat (Z.of_N cur)) with (N.to_nat cur) by lia.
   (* findSpace *)
@@ -273,9 +273,9 @@ Proof.
   etransitivity.
   { apply (mark_loop_need call1 RFin K "r.sectors[n+i] = true" true
              (mkist (Build_st o t (mark u n (N.to_nat cur) false) (N.max h (n' + need)) f)
-                (mkvars (Z.of_N x) (Z.of_N z) (Z.of_N need) (Z.of_N n') (Z.of_N need) vsec vnum vlength vsize (Z.of_N cur) vo vs vv voffset vtimestamp (Z.of_N n) (Z.of_N cur))
+                (mkvars (Z.of_N x) (Z.of_N z) (Z.of_N need) (Z.of_N n') (Z.of_N need) vsec vnum vlength vsize (Z.of_N cur) vo vs vv voffset vtimestamp (Z.of_N n) (Z.of_N cur) voff)
                 pos lim buf dat dlen ws false nw)
-             (mkvars (Z.of_N x) (Z.of_N z) (Z.of_N need) (Z.of_N n') (Z.of_N need) vsec vnum vlength vsize (Z.of_N cur) vo vs vv voffset vtimestamp (Z.of_N n) (Z.of_N cur))
+             (mkvars (Z.of_N x) (Z.of_N z) (Z.of_N need) (Z.of_N n') (Z.of_N need) vsec vnum vlength vsize (Z.of_N cur) vo vs vv voffset vtimestamp (Z.of_N n) (Z.of_N cur) voff)
              n' need eq_refl eq_refl eq_refl ltac:(change (2^31) with 2147483648; lia) (Z.to_nat (Z.of_N need)) 0
              (mark u n (N.to_nat cur) false) ltac:(lia)). }
   rewrite N.add_0_r. replace (Z.to_nat (Z.of_N need)) with (N.to_nat need) by lia.
@@ -446,7 +446,7 @@ Lemma range_eq k o t h f pos lim buf dat dlen ws nw : forall l u r,
            = k (mkist (Build_st o t (fold_left (ustep o) l u) h f) r' pos lim buf dat dlen ws false nw).
 Proof.
   induction l as [|j l IH]; intros u r; cbn [range_loop fold_left]; [exists r; reflexivity|].
-  destruct r as [vx vz vneed vn vnow vsec vnum vlength vsize vi vo vs vv voffset vtimestamp voldN voldNow].
+  destruct r as [vx vz vneed vn vnow vsec vnum vlength vsize vi vo vs vv voffset vtimestamp voldN voldNow voff].
   unfold load_body, C14gen.Load. cbn [nth_error].
   pose proof (sec_of_lt (getN o (N.of_nat j))) as Hsec. pose proof (cnt_of_lt' (getN o (N.of_nat j))) as Hcnt.
   change (2^24) with 16777216 in Hsec.
@@ -460,7 +460,7 @@ Proof.
   - cbn [sq]. subst K. cbn [sq]. apply IH.
   - peel. rewrite exec_for by reflexivity.
     set (sj := sec_of (getN o (N.of_nat j))) in *. set (cj := cnt_of (getN o (N.of_nat j))) in *.
-    set (rb := mkvars vx vz vneed vn vnow vsec vnum vlength vsize vi (Z.of_N sj) (Z.of_N cj) (elem o (N.of_nat j)) voffset vtimestamp voldN voldNow).
+    set (rb := mkvars vx vz vneed vn vnow vsec vnum vlength vsize vi (Z.of_N sj) (Z.of_N cj) (elem o (N.of_nat j)) voffset vtimestamp voldN voldNow voff).
     set (σb := mkist (Build_st o t u h f) rb pos lim buf dat dlen ws false nw).
     match goal with |- context [for_loop ?fu Vi ?hi ?bd ?K0 ?S0] =>
       assert (Hloop : for_loop fu Vi hi bd K0 S0 =
